@@ -133,14 +133,20 @@ def run_patched(body_kinds):
     def mark(i):
         state["seen"][i] = state["flag"]
         return i
-    # replace the import of the real toggles by instrumented ones
+    # the patched module is executed AS PATCHED: the toggle names must be bound by the inserted import statement, before their first
+    # use (a toggle call placed ahead of the import is a NameError); the imported functions are instrumented for the duration
     body = [s for s in out.body if not isinstance(s, ast.ImportFrom)]
     nimports = len(out.body) - len(body)
-    m2 = ast.Module(body=body, type_ignores=[])
-    ast.fix_missing_locations(m2)
-    env = {"mark": mark, "disable_sympy_evaluation": lambda: (state.__setitem__("flag", False), state["toggles"].append("D")),
-           "reset_sympy_evaluation": lambda: (state.__setitem__("flag", True), state["toggles"].append("E"))}
-    exec(compile(m2, "patched", "exec"), env)
+    import symplyphysics.core.processors as _P
+    saved = (_P.disable_sympy_evaluation, _P.reset_sympy_evaluation)
+    _P.disable_sympy_evaluation = lambda: (state.__setitem__("flag", False), state["toggles"].append("D"))
+    _P.reset_sympy_evaluation = lambda: (state.__setitem__("flag", True), state["toggles"].append("E"))
+    try:
+        m2 = ast.Module(body=list(out.body), type_ignores=[])
+        ast.fix_missing_locations(m2)
+        exec(compile(m2, "patched", "exec"), {"mark": mark})
+    finally:
+        _P.disable_sympy_evaluation, _P.reset_sympy_evaluation = saved
     # statements that are function definitions / docstrings do not call mark: recover survival from the AST
     survived = []
     for s in body:
